@@ -725,17 +725,18 @@ func c18NATTimeout(p *Prog, r *Report, rule string) {
 	// ss2022.NewUDPServer advertises the replay window; Info returns it
 	ns := p.Func("ss2022", "", "NewUDPServer")
 	adv := ""
-	ast.Inspect(ns.Body, func(n ast.Node) bool {
-		if kv, ok := n.(*ast.KeyValueExpr); ok && exprStr(kv.Key) == "MinNATTimeout" {
-			adv = exprStr(kv.Value)
-			if v, isC := constOf(ns.Info(), kv.Value); isC {
-				if k, exact := constant.Int64Val(constant.ToInt(v)); exact {
-					adv = fmt.Sprint(k)
-				}
+	for _, val := range fieldInits(ns, "MinNATTimeout") {
+		// several initialisations: the smallest constant counts, a non-constant one is reported as is
+		cur := exprStr(val)
+		if v, isC := constOf(ns.Info(), val); isC {
+			if k, exact := constant.Int64Val(constant.ToInt(v)); exact {
+				cur = fmt.Sprint(k)
 			}
 		}
-		return true
-	})
+		if adv == "" || (atoi64(cur) < atoi64(adv)) {
+			adv = cur
+		}
+	}
 	w, _, werr := extractTimestampWindow(p)
 	ret, rerr := extractRetention(p, NewReport("tmp", "quick"))
 	need := rw
